@@ -80,6 +80,12 @@ def check(case, ctx):
         name = name.upper()
     if case["blank"]:
         name = " ".join(name)
+    sib = GR.sibling(no, ch)
+    if sib is not None:
+        # history element: the other setting of the same group number is asked first, through the same API
+        gs = GR.group(*sib)
+        run_one(ctx, gs, pos, case["shift"], case["byname"], gs.name)
+        ctx.event("sibling-setting-used-first")
     exact = run_one(ctx, g, pos, case["shift"], case["byname"], name)
     if exact is None:
         return
